@@ -535,6 +535,52 @@ func (u *Unit) callModifies(common *ssa.CallCommon, ms *modSet) {
 		if allPure {
 			return
 		}
+		// targets with declared frames: the union of their components
+		allMods := len(cands) > 0
+		for _, f := range cands {
+			fc := u.eng.contractFor(f)
+			if fc == nil || (!fc.Pure && !fc.HasModifies) {
+				allMods = false
+			}
+		}
+		if allMods {
+			for _, f := range cands {
+				fc := u.eng.contractFor(f)
+				if fc.Pure {
+					continue
+				}
+				scratch := &State{vals: map[ssa.Value]Term{}, locs: map[ssa.Value]Loc{}, tuples: map[ssa.Value][]Term{}, heap: map[string]Term{},
+					iters: map[ssa.Value]*iterState{}, ghost: map[string]Term{}, alloc: mk("0", SInt), scratch: true}
+				ctx := &EvalCtx{u: u, st: scratch, bound: map[string]bool{}, vars: map[string]Term{}}
+				ctx.pkg = calleePkg(f)
+				for i, p := range fc.Params {
+					if i < len(f.Params) {
+						ctx.vars[p] = mkT("dummy", u.sortOf(f.Params[i].Type()), f.Params[i].Type())
+					}
+				}
+				ok := func() (ok bool) {
+					defer func() {
+						if r := recover(); r != nil {
+							if _, isEval := r.(evalErr); isEval {
+								ok = false
+								return
+							}
+							panic(r)
+						}
+					}()
+					for _, m := range fc.Modifies {
+						for _, l := range ctx.lvalues(m.Text) {
+							ms.comps[l.Comp] = l.CSort
+						}
+					}
+					return true
+				}()
+				if !ok {
+					ms.all = true
+				}
+			}
+			return
+		}
 	}
 	if c == nil {
 		ms.all = true
